@@ -39,6 +39,7 @@ type Prog struct {
 	reach         map[*ssa.Function]bool
 	reqReach      map[*ssa.Function]bool
 	globStores    map[*ssa.Global][]ssa.Value
+	escCache      map[*types.Named]bool
 	leaderCbs     map[string][]*ssa.Function
 	batchCache    []*batchModel
 	lockCache     *lockCtx
